@@ -187,6 +187,14 @@ def run(F, R, tier):
                         if o[0] == "call" and short(o[1]).startswith("update_") and short(o[1]).endswith("_rule_id") and o[3][-1:] == ("0",):
                             guards.append((endpoint_of(short(o[1])), tr))
             mine = [g[1] for g in guards if g[0] == ep]
+            # ... and on that edge it is always called (also when the new document carries no rules: "none" must be installed too)
+            hdr_ = q.outer_loop_header(B, bi)
+            for e_ in mine:
+                p2 = B.path([e_[1]], [hdr_] if hdr_ is not None else B.return_blocks(), cut_blocks=[bi])
+                R.check(p2 is None, "C09.R2", "C09.R2:%s:%s-always-on-updated-edge" % (LP, s), q.where(B, e_[0]),
+                        "once the rule id was reported as updated, %s is called on every path of the iteration" % s,
+                        "after the %s rule id changed there is a path that does not call %s (e.g. a branch for 'rules removed'): the previous "
+                        "document's rules stay enforced" % (ep, s), witness={"path_lines": B.path_lines(p2)} if p2 else None)
             p = B.path([0], [bi], cut_edges=mine)
             R.check(bool(mine) and p is None, "C09.R2", "C09.R2:%s:%s-on-updated-edge" % (LP, s), q.where(B, bi),
                     "%s is reachable only through the 'updated' edge of update_%s_rule_id" % (s, ep),
